@@ -75,7 +75,7 @@ def judge(ctx, program):
                 sc, opts = script_of[c]
                 if opts.get('volatile') or c in injected:
                     continue
-                fin = any(r[0] == 'finish' and r[1] == c for r in log[:l_idx])
+                fin = any(r[0] == 'finish' and r[1] == c for r in log[:l_idx]) or opts.get('bare') is not None
                 if st != 'SUCCESS' or not fin:
                     msgs.append('block %s ended normally at %r but its child %s did not run to completion (%s)' % (
                         name, log[l_idx][3], c, st))
